@@ -74,3 +74,9 @@ where
         self.allocator.clear();
     }
 }
+
+#[cfg(all(feature = "verif-hooks", kani))]
+#[allow(dead_code, unused)]
+pub(crate) mod verif_harness {
+    include!(concat!(env!("VERIF_HARNESS_DIR"), "/packet_id_manager_h.rs"));
+}
